@@ -360,6 +360,55 @@ func runC12Grid(args []string) error {
 				"parity_equal": eq, "reconstruct_equal": req || singular})
 		}
 	}
+	// (C2) wide codes over short shards, many repetitions: more goroutines than 16-byte ranges, so any sharing of a
+	// range between workers (splitting the inputs, accumulating partial sums) is exercised under many interleavings
+	reps := 300
+	if thorough {
+		reps = 3000
+	}
+	for _, d := range []int{32, 64, 256} {
+		for _, l := range []int{16, 32, 48, 100} {
+			p := 1 + rng.Intn(4)
+			data := make([][]byte, d)
+			for i := range data {
+				data[i] = make([]byte, l)
+				rng.Read(data[i])
+			}
+			c1, err := rsec16.NewCoderPAR2Vandermonde(d, p, 1)
+			if err != nil {
+				return err
+			}
+			par1 := c1.GenerateParity(data)
+			for _, g := range []int{4, 8, 16, 64} {
+				cg, _ := rsec16.NewCoderPAR2Vandermonde(d, p, g)
+				eq, req := true, true
+				for r := 0; r < reps; r++ {
+					parg := cg.GenerateParity(data)
+					for i := range par1 {
+						if !bytes.Equal(par1[i], parg[i]) {
+							eq = false
+						}
+					}
+					dd := make([][]byte, d)
+					copy(dd, data)
+					for k := 0; k < p; k++ {
+						dd[(k*7+r)%d] = nil
+					}
+					if err := cg.ReconstructData(dd, par1); err == nil {
+						for i := range data {
+							if !bytes.Equal(dd[i], data[i]) {
+								req = false
+							}
+						}
+					} else if err.Error() != "singular matrix" {
+						req = false
+					}
+				}
+				lg.Emit(tracelog.M{"ev": "gresult", "len": l, "g": g, "d": d, "p": p, "gomaxprocs": runtime.GOMAXPROCS(0), "reps": reps,
+					"parity_equal": eq, "reconstruct_equal": req})
+			}
+		}
+	}
 	// (D) par2.Create / Repair are byte-identical for every goroutine option
 	if *ranges {
 		for trial := 0; trial < 3; trial++ {
